@@ -145,7 +145,8 @@ package notify
 // stable across reloads that add or remove other integrations; the entry is looked up and recorded under the same one
 //@   at call NewDedupStage assert [log-identity-of-this-integration] arg2 != nil && arg2.GroupName == name && arg2.Integration == ret("Integration).Name") && arg2.Idx == ret("Integration).Index") && arg1 == notificationLog
 //@   at call NewSetNotifiesStage assert [recorded-under-the-identity-it-is-looked-up-by] arg1 == recv && arg0 == notificationLog
-//@   at call NewDedupStage assert [an-identity-object-of-its-own-per-integration] allocsince("Integration).Name", arg2)
+//@   at call NewDedupStage assert [an-identity-object-of-its-own-per-integration] allocsince("NewSetNotifiesStage", arg2)
+//@   loop 1 invariant allocbefore("NewSetNotifiesStage")
 //@   loop 1 invariant rangeindex < len(integrations) && len(fs) == rangeindex + 1 && (fs == nil || fresh(fs))
 //@   loop 1 invariant forall k int :: 0 <= k && k <= rangeindex ==> typeis(fs[k], MultiStage) && len(unbox(fs[k], MultiStage)) == 4
 //@   loop 1 invariant forall k int :: 0 <= k && k <= rangeindex ==> typeis(unbox(fs[k], MultiStage)[0], *ClusterWaitStage)
